@@ -91,13 +91,16 @@ def gen(rng, tier, quarantine=()):
     sched = {"seed": rng.randrange(1 << 30), "bound": bound, "first": rng.randrange(nthreads)}
     if r < 0.2:
         sched.update({"strategy": "random", "p": rng.choice([0.002, 0.005, 0.02, 0.05, 0.1])})
-    elif r < 0.5:
+    elif r < 0.45:
         # uniformly placed pre-emptions: a thread is stopped at a random point of the whole run
         # and the others run on (long windows, e.g. a whole variant compilation, get hit often)
         horizon = rng.choice([600, 2000, 6000])
         sched.update({"strategy": "step",
                       "change_points": sorted(rng.randrange(1, horizon) for _ in range(rng.choice([1, 2, 2, 3])))})
-    elif r < 0.6:
+    elif r < 0.68:
+        sched.update({"strategy": "inlock",
+                      "nths": [int(1.6 ** rng.uniform(0, 14)) for _ in range(rng.choice([1, 1, 2]))]})
+    elif r < 0.76:
         sched.update({"strategy": "pct", "prio": rng.sample(range(nthreads), nthreads),
                       "change_points": sorted(rng.randrange(1, 4000) for _ in range(rng.choice([1, 2, 3])))})
     else:
